@@ -315,4 +315,27 @@ theorem c17_adapter_counterexample : ¬ ∀ ls : List ALabel, (aexec ASys.init l
   revert this
   decide
 
+/-- **Partial theorem (adapter layer).**  Under the explicit, decidable guard `runOk` — every
+`setBreakpoints` request carries only breakpoints of the file it names and is handled at a moment
+when no Breakpoint stop is waiting in the stop channel, which excludes exactly the window of the
+counterexample — the claim holds for every interleaving of hook calls, wake-ups, pause / continue /
+step requests, breakpoint changes and coordinator turns: whenever the runtime is parked for good
+and the coordinator has drained the channel, the client has received a `stopped` event since its
+last continue/step request.  (Stale *pause* expectations, dropped duplicate Pause stops etc. are
+all covered; the only way to lose the notification is the stale breakpoint generation.) -/
+theorem c17_adapter_told_partial (ls : List ALabel) (hok : ASys.init.runOk ls = true) :
+    (aexec ASys.init ls).told = true :=
+  told_of_ainv _ (ainv_exec ls _ ainv_init hok)
+
+/-- The guard is satisfiable by runs that do reach a parked, notified state with breakpoints … -/
+example : ASys.init.runOk [.reqSetBps 0 [demoBp], .hook (some ⟨0, 0, 10⟩) 0, .coord] = true ∧
+    (aexec ASys.init [.reqSetBps 0 [demoBp], .hook (some ⟨0, 0, 10⟩) 0, .coord]).quiescentParked = true ∧
+    (aexec ASys.init [.reqSetBps 0 [demoBp], .hook (some ⟨0, 0, 10⟩) 0, .coord]).clientStopped = true := by
+  decide
+
+/-- … and it is exactly what the counterexample run violates. -/
+example : ASys.init.runOk
+    [.reqSetBps 0 [demoBp], .hook (some ⟨0, 0, 10⟩) 0, .reqSetBps 0 [demoBp], .coord] = false := by
+  decide
+
 end TrustVerif.C17
